@@ -262,7 +262,17 @@ class Ctx:
             if h not in self._distinct:
                 self._distinct.add(h)
                 self.coverage["distinct_nontrivial"] = len(self._distinct)
-                if len(self.coverage["samples"]) < sample_cap:
+                # keep a few samples per bucket (case kind / mode / first async node) so that they show the variety explored
+                bucket = "?"
+                if isinstance(case, dict):
+                    bucket = str(case.get("kind") or case.get("mode") or case.get("model") or "?")
+                    if "nodes" in case and isinstance(case["nodes"], list):
+                        ks = [n.get("kind") for n in case["nodes"] if isinstance(n, dict)]
+                        special = [k for k in ks if k not in ("source", "sink", "map", "filter")]
+                        bucket += ":" + (special[0] if special else "plain")
+                self._buckets = getattr(self, "_buckets", {})
+                if self._buckets.get(bucket, 0) < 1 and len(self.coverage["samples"]) < 12:
+                    self._buckets[bucket] = self._buckets.get(bucket, 0) + 1
                     self.coverage["samples"].append(case)
 
     def audit(self, module=None, extra_modules=()):
